@@ -375,3 +375,46 @@ def build_alphas(a_scalar, a_diag, g, het_seed=0, amp=None):
     f = np.exp(np.random.default_rng(het_seed).uniform(-1, 1, g.num_cells) * np.log(amp if amp else np.exp(0.5)))
     d = np.asarray(a_diag, dtype=float)
     return {"a": float(a_scalar), "b": pp.SecondOrderTensor(kxx=d[0] * f, kyy=d[1] * f, kzz=d[2] * f)}
+
+
+# --------------------------------------------------------------------------- periodic face maps (C12)
+@st.composite
+def periodic_axes(draw, gs):
+    """Axes whose two opposite sides are made periodic with Grid.set_periodic_map (axis-aligned Cartesian / tensor
+    lattices of dim >= 2 only, so that the side faces match one to one); [] = not periodic."""
+    if not axis_aligned_lattice(gs) or gs["dim"] < 2:
+        return []
+    # at least three cells across a periodic direction (with one or two the cells would be their own / double neighbours)
+    ok = [a for a in range(gs["dim"]) if gs["n"][a] >= 3]
+    if not ok or draw(st.integers(0, 2)) > 0:
+        return []
+    first = draw(st.sampled_from(ok))
+    rest = [a for a in ok if a != first]
+    if rest and draw(st.booleans()):
+        return sorted([first, draw(st.sampled_from(rest))])
+    return [first]
+
+
+def apply_periodic(g, axes) -> np.ndarray:
+    """g.set_periodic_map for the low / high side of every axis in `axes` (as in the repository's periodic tests:
+    before the BoundaryCondition object is made, which then sees the periodic faces as non-boundary).
+    Returns the (2, n) map."""
+    left, right = [], []
+    for a in axes:
+        x = g.face_centers[a]
+        lo, hi = x.min(), x.max()
+        tol = 1e-9 * (hi - lo)
+        fl, fr = np.where(x < lo + tol)[0], np.where(x > hi - tol)[0]
+        # faces in increasing index order on both sides (Mpfa documents that it needs sorted maps); on a structured
+        # lattice these match one to one, which is verified
+        others = [b for b in range(g.dim) if b != a]
+        if fl.size != fr.size or not np.allclose(g.face_centers[others][:, fl], g.face_centers[others][:, fr],
+                                                 rtol=0, atol=1e-9 * (hi - lo)):
+            from ..core import HarnessError
+
+            raise HarnessError("periodic sides do not match")
+        left.append(fl)
+        right.append(fr)
+    m = np.vstack((np.concatenate(left), np.concatenate(right))).astype(int)
+    g.set_periodic_map(m)
+    return m
